@@ -364,25 +364,26 @@ def trigger(
             return handlers[0](evt)
 
         # Notification event - multiple handlers are allowed
+        #   An exception in one handler mustn't stop the remaining handlers
+        #   from being notified, so capture (and log) them individually
         handlers = cast(_NotificationHandlerAttr, handlers)
         for func, args in handlers:
-            if args:
-                func(evt, *args)
-            else:
-                func(evt)
-    except Exception as exc:
+            try:
+                if args:
+                    func(evt, *args)
+                else:
+                    func(evt)
+            except Exception as exc:
+                LOGGER.error(
+                    f"Exception raised in user's 'evt.{event.name}' "
+                    f"event handler '{func.__name__}'"
+                )
+                LOGGER.exception(exc)
+    except Exception:
         setattr(assoc, "abort", assoc._abort_blocking)
 
         # Intervention exceptions get raised
-        if isinstance(event, InterventionEvent):
-            raise
-
-        # Capture exceptions for notification events
-        LOGGER.error(
-            f"Exception raised in user's 'evt.{event.name}' "
-            f"event handler '{func.__name__}'"
-        )
-        LOGGER.exception(exc)
+        raise
 
     setattr(assoc, "abort", assoc._abort_blocking)
 
